@@ -29,11 +29,13 @@ import (
 	"github.com/syndtr/goleveldb/leveldb/opt"
 
 	"github.com/golang/protobuf/ptypes/empty"
+	coreconfig "github.com/massnetorg/mass-core/config"
 	"github.com/massnetorg/mass-core/massutil"
 
 	"massnet.org/mass/api"
 	pb "massnet.org/mass/api/proto"
 	"massnet.org/mass/config"
+	pocwallet "massnet.org/mass/poc/wallet"
 	"massnet.org/mass/poc/wallet/db"
 	ldb "massnet.org/mass/poc/wallet/db/ldb"
 	"massnet.org/mass/poc/wallet/keystore"
@@ -66,29 +68,30 @@ type wallet struct {
 }
 
 type drv struct {
-	sc        vh.Scenario
-	dir       string
-	seeds     map[string][]byte
-	pass      map[string][]byte
-	remarks   map[string]string
-	absRem    map[string]string
-	wallets   map[string]*wallet
-	wnames    []string
-	idToSeed  map[string]string
-	seedToID  map[string]string
-	keyTab    map[string]string // seed/branch/index -> pubkey hex
-	pkTab     map[string]string // pubkey hex -> seed/branch/index
-	files     map[string][]byte
-	fileSeed  map[string]string
-	tampered  map[string]bool
-	tamperFld map[string]string
-	keyok     bool
-	keynote   string
-	needles   [][]byte // secrets known to the driver: seeds, passphrases, derived private keys
-	logPath   string
-	foreign   *pocec.PrivateKey
-	api       bool     // export / import / lock / unlock / passphrase changes go through the gRPC handlers (api/wallets.go)
-	apiFiles  []string // files the export handler wrote
+	sc         vh.Scenario
+	dir        string
+	seeds      map[string][]byte
+	pass       map[string][]byte
+	remarks    map[string]string
+	absRem     map[string]string
+	wallets    map[string]*wallet
+	wnames     []string
+	idToSeed   map[string]string
+	seedToID   map[string]string
+	keyTab     map[string]string // seed/branch/index -> pubkey hex
+	pkTab      map[string]string // pubkey hex -> seed/branch/index
+	files      map[string][]byte
+	fileSeed   map[string]string
+	tampered   map[string]bool
+	tamperFld  map[string]string
+	keyok      bool
+	keynote    string
+	needles    [][]byte // secrets known to the driver: seeds, passphrases, derived private keys
+	logPath    string
+	foreign    *pocec.PrivateKey
+	walletOpen bool
+	api        bool     // export / import / lock / unlock / passphrase changes go through the gRPC handlers (api/wallets.go)
+	apiFiles   []string // files the export handler wrote
 }
 
 // viaAPI: the call goes through the handler.  The handlers refuse a passphrase whose length is outside 6..40 before the
@@ -538,8 +541,12 @@ func (d *drv) reopenProj(w *wallet, n int) (map[string]interface{}, string) {
 }
 
 func (d *drv) reopenProjOnce(w *wallet, n int) (map[string]interface{}, string) {
-	cp := filepath.Join(d.dir, fmt.Sprintf("%s-copy%d", w.name, n))
-	defer os.RemoveAll(cp)
+	// with opt walletopen every third projection opens the copy the way the node does at start-up (wallet.NewPoCWallet on
+	// <MinerDir>/keystore, once per candidate passphrase), the others share one store opened with small buffers
+	viaWallet := d.walletOpen && n%3 == 0
+	top := filepath.Join(d.dir, fmt.Sprintf("%s-copy%d", w.name, n))
+	cp := filepath.Join(top, "keystore")
+	defer os.RemoveAll(top)
 	out := map[string]interface{}{}
 	opens := []string{}
 	var proj map[string]interface{}
@@ -565,11 +572,32 @@ func (d *drv) reopenProjOnce(w *wallet, n int) (map[string]interface{}, string) 
 		return map[string]interface{}{"err": "open copy: " + err.Error()}, cp
 	}
 	var s db.DB = &ldb.LevelDB{LDb: raw}
-	defer s.Close()
+	if viaWallet {
+		s.Close()
+	} else {
+		defer s.Close()
+	}
+	wcfg := &config.Config{Miner: &config.Miner{MinerDir: top}, Datastore: &coreconfig.Datastore{DBType: "leveldb"}}
+	var closeLast func() error
 	for _, q := range allPass {
-		m, err := keystore.NewKeystoreManagerForPoC(s, d.pass[q], config.ChainParams)
-		if err != nil {
-			continue
+		if closeLast != nil {
+			closeLast() // one instance at a time owns the store
+			closeLast = nil
+		}
+		var m *keystore.KeystoreManagerForPoC
+		if viaWallet {
+			pw, err := pocwallet.NewPoCWallet(wcfg, d.pass[q])
+			if err != nil {
+				continue
+			}
+			closeLast = pw.Close
+			m = pw.KeystoreManagerForPoC
+		} else {
+			var err error
+			m, err = keystore.NewKeystoreManagerForPoC(s, d.pass[q], config.ChainParams)
+			if err != nil {
+				continue
+			}
 		}
 		opens = append(opens, q)
 		if proj == nil {
@@ -606,6 +634,9 @@ func (d *drv) reopenProjOnce(w *wallet, n int) (map[string]interface{}, string) 
 			}
 			proj["next"] = next
 		}
+	}
+	if closeLast != nil {
+		closeLast()
 	}
 	if proj == nil {
 		proj = map[string]interface{}{"ks": map[string]ksProj{}, "locked": true, "unlocks": []string{}, "next": map[string]int{}}
@@ -998,6 +1029,7 @@ func run(sc vh.Scenario, dir string, rec *vh.Rec) {
 	}()
 	light, _ := sc.Opt["light"].(bool) // skip the heavy projections (used by large sweeps)
 	d.api, _ = sc.Opt["api"].(bool)
+	d.walletOpen, _ = sc.Opt["walletopen"].(bool)
 	ctx := context.Background()
 	ncopy := 0
 	reoCache := map[string]interface{}{}
